@@ -116,6 +116,11 @@ def canon1(t):
         return ("pack", t[2][0], t[2][1])
     if k == "idx" and _g(t[1], "struct.unpack") and t[2] == ("c", 0) and len(t[1][2]) == 2:
         return ("unpack1", t[1][2][0], t[1][2][1])
+    if _g(t, "int.from_bytes") and len(t[2]) >= 2 and t[2][1] == ("c", "big") and t[2][0][0] == "slice" and not t[3]:
+        # int.from_bytes(x[a:a+4], "big") is struct.unpack(">I", x[a:a+4])[0]: a 4-octet big-endian unsigned integer
+        sl = t[2][0]
+        if sl[3] in (("op", "+", ("c", 4), sl[2]), ("op", "+", sl[2], ("c", 4))) or (sl[2] == ("c", None) and sl[3] == ("c", 4)):
+            return ("unpack1", ("c", ">I"), sl)
     if _g(t, "time.time") and not t[2]:
         return ("now",)
     # --- PBKDF2 (cryptography) / hashlib.pbkdf2_hmac
@@ -481,7 +486,32 @@ def rule_cryptosign(ctx):
                 probs.append(f"operands of {n_} octets: result {r}")
         ctx.ob("util.xor XORs every byte position of d1 with the same position of d2 [symbolic octets, lengths 0, 1, 3]", not probs, "; ".join(probs[:2]), xf.loc())
     except AnalysisError as e:
-        raise AnalysisError(f"[C19.4-cryptosign-formula] util.xor outside the modelled subset: {e}")
+        # not in the symbolic subset (e.g. arithmetic on whole integers instead of per octet): concrete operands can still REFUTE it -- equal
+        # leading octets, all-zero results, empty operands -- but they cannot establish it for all values
+        cex = []
+        for a_, b_ in ((b"", b""), (b"\x01", b"\x01"), (b"\x12\x34\x56", b"\x12\x00\x56"), (b"\xff\x00", b"\x00\xff"), (b"\x00\x00\x01", b"\x00\x00\x03")):
+            def conc(f_, args_, k_=None):
+                if f_ == "array":
+                    return list(args_[1]) if isinstance(args_[1], (bytes, list)) else []
+                if f_ == "int.from_bytes":
+                    from ..core.tiny import _to_py
+                    return int.from_bytes(_to_py(args_[0]) or b"", *args_[1:])
+                return Sym(f"<{f_}>")
+            try:
+                from ..core.tiny import _to_py, Buf
+                tt = Tiny({xf.params()[0]: a_ if a_ else Buf(0, 0), xf.params()[1]: b_ if b_ else Buf(0, 0)}, default_call=conc, model_strings=True, model_types=True)
+                rr = tt.run([x for x in xf.node.body if not (isinstance(x, ast.Expr) and isinstance(x.value, ast.Constant))])
+            except AnalysisError:
+                continue
+            want = bytes(x ^ y for x, y in zip(a_, b_))
+            got = _to_py(rr[1]) if rr[0] == "return" else None
+            got = bytes(got) if isinstance(got, list) and all(isinstance(x, int) for x in got) else (got.encode("latin1") if isinstance(got, str) and got == "" else got)
+            if rr[0] != "return" or got != want:
+                cex.append(f"xor({a_!r}, {b_!r}) gives {got!r} ({rr[0]}), expected {want!r}")
+        if cex:
+            ctx.ob("util.xor XORs every byte position of d1 with the same position of d2 [concrete counter-example]", False, "; ".join(cex[:2]), xf.loc())
+        else:
+            raise AnalysisError(f"[C19.4-cryptosign-formula] util.xor outside the modelled subset: {e}")
     # _sign_challenge
     sc = p.func(f"{CS}._sign_challenge")
     ctx.analysed(sc)
